@@ -11,6 +11,7 @@ package main
 import (
 	"crypto/sha256"
 	"fmt"
+	"os"
 	"runtime"
 	"strings"
 	"sync"
@@ -204,25 +205,43 @@ func emit(r *hx.Run, res *caseResult) {
 
 // runAll executes the cases in parallel and emits them in order.
 func runAll(r *hx.Run, subs []uint64, cases [][]string, par int) {
+	base := caseBase // global index of the first case (journal of the supervisor, see supervise.go)
+	caseBase += len(cases)
 	results := make([]*caseResult, len(cases))
 	var wg sync.WaitGroup
 	sem := make(chan struct{}, par)
 	for i := range cases {
+		if onlyCase >= 0 && base+i != onlyCase {
+			continue
+		}
+		if reason, crashed := skipCases[base+i]; crashed {
+			results[i] = crashedResult(subs[i], cases[i], reason)
+
+			continue
+		}
 		wg.Add(1)
 		sem <- struct{}{}
 		go func(i int) {
 			defer wg.Done()
 			defer func() { <-sem }()
+			journalWrite("S", base+i)
 			results[i] = runOps(subs[i], cases[i])
+			journalWrite("E", base+i)
 		}(i)
 	}
 	wg.Wait()
 	for _, res := range results {
-		emit(r, res)
+		if res != nil {
+			emit(r, res)
+		}
 	}
 }
 
 func main() {
+	if os.Getenv("C15_CHILD") == "" {
+		os.Exit(supervise())
+	}
+	loadChildEnv()
 	if runtime.GOMAXPROCS(0) < 4 {
 		runtime.GOMAXPROCS(4) // the races the stress sections look for need real parallelism
 	}
@@ -232,7 +251,7 @@ func main() {
 		"vr: forced schedule with >= 2 events; pr: >= 2 callbacks; ev: >= 2 hooks and >= 2 triggers; it: a Hook/Unhook executed inside a callback; om: a Set/Delete/Clear executed inside a ForEach consumer; " +
 		"mt/pt/hw/hc/lk/lm/uu/vd/vc/vx: every stress run"
 	if lines := r.ReplayLines(); lines != nil {
-		emit(r, runOps(0, lines))
+		runAll(r, []uint64{0}, [][]string{lines}, 1)
 		r.Finish()
 
 		return
